@@ -364,6 +364,8 @@ fn clean_item(it: &mut syn::Item, derive_keep: &[String], subst: &BTreeMap<Strin
 // ---- function transformation
 
 struct Rules {
+    impl_arg: bool,
+    split_loop: bool,
     mut_self: bool,
     mid_continue: bool,
     closure_wildcards: bool,
@@ -507,6 +509,26 @@ impl<'a> VisitMut for RuleVisitor<'a> {
 
     fn visit_expr_for_loop_mut(&mut self, l: &mut syn::ExprForLoop) {
         visit_mut::visit_expr_for_loop_mut(self, l);
+        if self.rules.split_loop {
+            // E14: `for p in X.split(<char literal>) { B }` ==> `for p in vx_split_char(&X, <char literal>) { B }`
+            // (the lazy str::Split iterator is replaced by the vector of its items: `split` is pure and the haystack is
+            // immutably borrowed for the whole loop, so the loop sees the same items in the same order; vx_split_char
+            // is a trusted prelude function whose body is `s.split(c).collect()`)
+            let mut repl: Option<Expr> = None;
+            if let Expr::MethodCall(mc) = &*l.expr {
+                if mc.method == "split" && mc.args.len() == 1 && mc.turbofish.is_none() {
+                    if let Expr::Lit(syn::ExprLit { lit: syn::Lit::Char(_), .. }) = &mc.args[0] {
+                        let recv = &mc.receiver;
+                        let arg = &mc.args[0];
+                        repl = Some(parse_quote!(vx_split_char(&#recv, #arg)));
+                    }
+                }
+            }
+            if let Some(e) = repl {
+                *l.expr = e;
+                self.applied.bump("E14-split-loop-over-collected-parts");
+            }
+        }
         if self.rules.tail_continue {
             tail_continue_block(&mut l.body, self.applied);
         }
@@ -925,6 +947,8 @@ fn transform_fn(
         .map(|a| a.iter().filter_map(|x| x.as_str().map(String::from)).collect())
         .unwrap_or_default();
     let rules = Rules {
+        impl_arg: rule_list.iter().any(|r| r == "E15"),
+        split_loop: rule_list.iter().any(|r| r == "E14"),
         mut_self: rule_list.iter().any(|r| r == "E13"),
         mid_continue: rule_list.iter().any(|r| r == "E12"),
         closure_wildcards: rule_list.iter().any(|r| r == "E11"),
@@ -941,6 +965,27 @@ fn transform_fn(
     }
     let mut applied = Applied::default();
     RuleVisitor { rules: &rules, applied: &mut applied }.visit_block_mut(block);
+    if rules.impl_arg {
+        // E15: `fn f(x: impl Tr)` ==> `fn f<VxImpl0: Tr>(x: VxImpl0)` (argument-position `impl Trait` is sugar for an anonymous
+        // type parameter; naming it lets a contract mention the type)
+        let mut k = 0usize;
+        let mut new_params: Vec<syn::GenericParam> = Vec::new();
+        for arg in sig.inputs.iter_mut() {
+            if let syn::FnArg::Typed(pt) = arg {
+                if let syn::Type::ImplTrait(it) = &*pt.ty {
+                    let name = format_ident!("VxImpl{}", k);
+                    let bounds = &it.bounds;
+                    new_params.push(parse_quote!(#name: #bounds));
+                    *pt.ty = parse_quote!(#name);
+                    k += 1;
+                }
+            }
+        }
+        for gp in new_params {
+            sig.generics.params.push(gp);
+            applied.bump("E15-impl-trait-argument-named");
+        }
+    }
     if rules.mut_self {
         // E13: `fn f(mut self, ..) { B }` ==> `fn f(self, ..) { let mut __vx_self = self; B[self := __vx_self] }`
         // (a by-value `mut self` is only a mutable local binding of the receiver; Verus has no `mut self` parameters)
